@@ -67,6 +67,10 @@ def maxPrecision (w : Nat) : Nat :=
   if w = 32 then DECIMAL32_MAX_PRECISION else if w = 64 then DECIMAL64_MAX_PRECISION
   else if w = 128 then DECIMAL128_MAX_PRECISION else DECIMAL256_MAX_PRECISION
 
+/-- `validate_decimal_precision_and_scale::<T>` (run by `with_precision_and_scale` on the result) -/
+def validDecType (w p : Nat) (s : Int) : Bool :=
+  decide (1 ≤ p ∧ p ≤ maxPrecision w ∧ s ≤ (maxPrecision w : Int) ∧ ¬ (0 < s ∧ (p : Int) < s))
+
 /-- `T::MAX_FOR_EACH_PRECISION.get(k)`, then `+ 1` — the power of ten the rescalers use.
 The 32/64/128-bit tables are the regenerated source tables; the 256-bit table is written as
 byte arrays in the source and is modelled by its documented content `10^k - 1`
